@@ -35,7 +35,8 @@ CONSTANTS Producers,  \* loops that hand events to the consumer (retrieve / stor
           GenesisInFuture, DelayIgnoresCancel, SendIgnoresCancel,
           Reporters,        \* loops that report a fatal error to Run over errCh
           ReportOnCancel,   \* those of them that also report an error caused by the cancellation
-          ErrCap            \* capacity of errCh
+          ErrCap,           \* capacity of errCh
+          Unjoined          \* deviation: loops started outside the WaitGroup that Run joins ({} on the current tree)
 
 Consumer == "sync"
 LoopsAll == Producers \cup Others \cup {Consumer, "aggregation"}
@@ -86,7 +87,8 @@ RunRecv == /\ runpc = "select" /\ errq > 0 /\ errq' = errq - 1 /\ cancelled' = T
            /\ UNCHANGED <<pc, chan, delayLeft>>
 RunStop == /\ runpc = "select" /\ cancelled /\ runpc' = "joining" /\ UNCHANGED <<pc, chan, cancelled, delayLeft, errq>>
 AllReturned == \A x \in LoopsAll : pc[x] = "returned"
-RunJoin == /\ runpc = "joining" /\ AllReturned /\ runpc' = "done" /\ UNCHANGED <<pc, chan, cancelled, delayLeft, errq>>
+JoinedReturned == \A x \in LoopsAll \ Unjoined : pc[x] = "returned"
+RunJoin == /\ runpc = "joining" /\ JoinedReturned /\ runpc' = "done" /\ UNCHANGED <<pc, chan, cancelled, delayLeft, errq>>
 
 Next == Cancel \/ DelayTick \/ DelayEnd \/ Recv
         \/ (\E x \in LoopsAll : Wake(x) \/ Return(x) \/ WorkDone(x))
@@ -105,5 +107,7 @@ LiveSpec == Spec /\ Fair
 StopsEventually == cancelled ~> AllReturned
 \* ... and the node shuts down: Run gets past wg.Wait
 RunReturns == cancelled ~> (runpc = "done")
+\* ... having waited for every activity: nothing of the node is still running when Run returns
+EveryActivityReturned == runpc = "done" => AllReturned
 StopsPromptly == [][(cancelled /\ pc["aggregation"] = "delay") => ~(delayLeft' < delayLeft)]_vars
 ==========================================================================
